@@ -304,6 +304,28 @@ def version_bit_cells(version):
     return {k: [(k // 3, n - 11 + k % 3), (n - 11 + k % 3, k // 3)] for k in range(18)}
 
 
+def placement(version):
+    """(row, col) of the data-region cells in ISO 7.7.3 placement order: two-module wide columns from the right,
+    the first one upwards, alternating; the vertical timing column of QR symbols is skipped."""
+    n = size_of(version)
+    fn_cells = layout(version)
+    out = []
+    micro = version < 1
+    right = n - 1
+    up = True
+    while right > 0:
+        if not micro and right == 6:
+            right -= 1
+        rows = range(n - 1, -1, -1) if up else range(n)
+        for r in rows:
+            for c in (right, right - 1):
+                if (r, c) not in fn_cells:
+                    out.append((r, c))
+        up = not up
+        right -= 2
+    return out
+
+
 def function_cell_count(version):
     return len(layout(version))
 
